@@ -52,6 +52,8 @@ def entries(P):
             continue
         if not re.match(r'(std|core)::result::Result<', f['ret']):
             continue
+        if re.search(r'::write_to_storage', f['qual']):
+            continue        # persistence is C15's subject (its partial-progress order is checked there)
         out.append(f['qual'])
     return sorted(set(out))
 
@@ -68,11 +70,31 @@ def run(ctx):
         for e in ents + builders:
             r.site(e)
         return r
-    ctx.check('FAIL-ATOMIC', 'entry-inventory', count, floor=MIN_ENTRIES.get(ctx.config, 10))
-    for e in ents:
-        ctx.check('FAIL-ATOMIC', e, lambda P_, e=e: fail_atomic(P_, e, sums[e], EXEMPT))
-    for e in builders:
-        ctx.check('FAIL-ATOMIC', e, lambda P_, e=e: fail_atomic(P_, e, sums[e], EXEMPT, under=['group']))
+    from ..core.fa_rule import fail_atomic_grouped, mod_paths
+    from ..core.engine import Res
+    under_map = {b: ['group'] for b in builders}
+    groups, used = fail_atomic_grouped(P, ents + builders, sums, EXEMPT, under_map)
+
+    def clean(P_):
+        r = Res()
+        dirty_entries = set(e for g in groups.values() for e in g['entries'])
+        for e in ents + builders:
+            n = len(mod_paths(P_, sums[e], 1, under_map.get(e)))
+            r.site('%s: %d state path(s) may be written; %s' % (e, n, 'NOT failure-atomic' if e in dirty_entries else 'failure-atomic'))
+        r.detail = {'entries': len(ents + builders), 'failure_atomic_entries': len(ents + builders) - len(dirty_entries), 'exemptions_used': used}
+        return r
+    ctx.check('FAIL-ATOMIC', 'entries analysed', clean, floor=MIN_ENTRIES.get(ctx.config, 10))
+    for (path, w), g in sorted(groups.items()):
+        def one(P_, path=path, w=w, g=g):
+            r = Res()
+            for e in sorted(g['entries']):
+                r.site(e)
+            whys = sorted(set(g['whys']))
+            r.bad('entries=' + ','.join(sorted(g['entries'])),
+                  'not failure-atomic: `%s` is written in `%s` and a later step (in %s) can still return an error, in operations: %s (%s)'
+                  % (path, w, ', '.join(sorted(g['ffs']))[:300], ', '.join(sorted(g['entries'])), whys[0]), where=whys[:4])
+            return r
+        ctx.check('FAIL-ATOMIC', 'path=%s|writer=%s' % (path, w), one)
     # the exemption for private_tree.self_index relies on who may pass external_leaf = Some
     from ..core.rules import who_calls
     ctx.check('WHO-CALLS', 'c04.external-leaf-caller',
